@@ -34,6 +34,18 @@ CHECKS['C20'] = dict(
          'outcome, final file class compared); random longer scripts are trace-validated.',
     design_ref='4 (C20)', technique='TLA+/TLC model checking + exhaustive spec-to-code replay + trace validation',
     note=_NOTE + ' The `responses` mock stands for the HTTP server.')
+CHECKS['C19'] = dict(
+    text='Events.tla / Reporter.tla: TLC proves that the partition-filter-short-circuit transcription of '
+         'emit equals the precedence-relation statement of the expected call sequence for every '
+         'registered-callback list up to the bound (54-operation alphabet: 3 callbacks incl. a bound '
+         'method, 2 events, sender filters, last, 3 connect styles, unconnect by callback / sender / '
+         'owner, reset, toggling silent(), set_silent, emit with and without single), and the reporter '
+         'action property AnnounceIffArmed on every transition. Every length-3 emitter history and '
+         'length-4/5 reporter history plus TLC-simulated deep histories are replayed on real objects '
+         '(fresh emitter and the module singleton); random 200-step histories are validated call by '
+         'call (observation, successor state, P-layer) by the trace specifications.',
+    design_ref='4 (C19)', technique='TLA+/TLC model checking + history replay (BFS + simulation) + trace validation',
+    note=_NOTE)
 
 NOT_APPLICABLE = {}
 for e in ENGINES:
